@@ -419,10 +419,10 @@ func main() {
 		}
 		vrt.WorkerMain(hs)
 		run := evid.New("C18", "model_checking")
-		run.Rule = "sequential part: every timeline up to depth d over {leecher requests a piece and is served | a piece is received from a seeder, advance the clock by 6 min, preemption tick, manual removal of an in-progress download} with idle limits of 10 min, executed on the real scheduler/dispatcher/agent storage in virtual time (testing/synctest; pending events are applied in canonical order after every action) and compared with a reference timeline model (last real activity, completion, presence). " +
-			"concurrent part: P remote peers on one torrent, every timeline up to depth d over {peer p (none in flight) delivers a good | corrupt payload of piece k whose storage write runs to completion | is suspended before entering the agent storage | is suspended inside the storage write with the piece marked dirty; a suspended write continues; advance 6 min; tick} for a leeching torrent, and over {peer p requests piece k: the payload is queued in its conn; the conn's write loop consumes and closes a queued payload; advance 6 min; tick} for a seeding torrent; the real storage decides which writes are accepted (first complete write of a piece) and which rejected (duplicate of a complete piece, conflict with a write in progress, bad piece sum). After every step: last write/read time >= time of the last accepted write / last consumed payload, a tick drops the torrent only if that time is an idle limit ago and must drop it after twice the limit, a drop deletes the partial file / keeps the cached blob. state = timeline prefix; transitions = actions executed."
+		run.Rule = "sequential part: every timeline up to depth d over {leecher requests a piece and is served | a piece is received from a seeder, the remote peer's connection closes (receiver channel closed -> feed goroutine ends -> dispatcher.removePeer -> peerRemovedEvent), the peer connects again (at most once), advance the clock by 6 min, preemption tick, manual removal of an in-progress download} with idle limits of 10 min, executed on the real scheduler/dispatcher/agent storage in virtual time (testing/synctest; pending events are applied in canonical order after every action) and compared with a reference timeline model (last real activity, completion, presence). " +
+			"concurrent part: P remote peers on one torrent, every timeline up to depth d over {peer p (none in flight) delivers a good | corrupt payload of piece k whose storage write runs to completion | is suspended before entering the agent storage | is suspended inside the storage write with the piece marked dirty; a suspended write continues; the connection of peer p closes, with or without a write of p in flight (the peer is removed from the dispatcher once its current message is dispatched); advance 6 min; tick} for a leeching torrent, and over {peer p requests piece k: the payload is queued in its conn; the conn's write loop consumes and closes a queued payload; the connection of peer p closes (a payload still queued in it is dropped unsent and is not a served piece; the peer is removed from the dispatcher); advance 6 min; tick} for a seeding torrent, each from two start states (torrent control just created | already without activity for 12 min, i.e. older than the idle limit); the real storage decides which writes are accepted (first complete write of a piece) and which rejected (duplicate of a complete piece, conflict with a write in progress, bad piece sum). After every step (also after a peer was removed, so the record of the last activity must outlive the peer that caused it): last write/read time >= time of the last accepted write / last consumed payload, a tick drops the torrent only if that time is an idle limit ago and must drop it after twice the limit, a drop deletes the partial file / keeps the cached blob. state = timeline prefix; transitions = actions executed."
 		run.Assume("remote peers through fake message links (one in the sequential part, 2-3 in the concurrent part); announce client disabled; the order of pending events is not varied here (C17 does that)")
-		run.Assume("concurrent part: one operation in flight per peer (the dispatcher's feed goroutine of a peer is sequential); operations are atomic between the suspension points at the storage / conn boundary; peers and pieces are interchangeable (peer i+1 / piece k+1 only after peer i / piece k); the last piece is never delivered, so the leeching torrent stays in progress; piece-request resend timer configured out of the horizon")
+		run.Assume("concurrent part: one operation in flight per peer (the dispatcher's feed goroutine of a peer is sequential); operations are atomic between the suspension points at the storage / conn boundary; peers and pieces are interchangeable (peer i+1 / piece k+1 is used, and peer i+1's connection closed, only after peer i was used or closed / piece k was used); a closed connection is not reopened in the concurrent part (the sequential part reconnects once); the last piece is never delivered, so the leeching torrent stays in progress; piece-request resend timer configured out of the horizon")
 		run.Assume("liveness is only required with margin: no activity for more than twice the idle limit => dropped by the next tick")
 		for _, r := range roles(run.Thorough()) {
 			h := harness(r)
